@@ -247,3 +247,13 @@ ASSUME = [
     'math/bits.LeadingZeros8 is modelled by Base.Prim.clz8',
     'the high nibble of the fifth ITF-8 byte is not significant (CRAM section 2.3; decoders mask it)',
 ]
+
+CLAIM = dict(
+    text='Machine-checked proof (Coq 8.16.1) about the Gallina translation of itf8/ltf8 Len, Encode, Decode that /verif/gen regenerates from the Go source on every run: '
+         'round trip for every int32/int64, bytes equal the CRAM encoding, Decode equals the specification decoder on every byte string (so it never panics, '
+         'never looks past the announced length and fails exactly on short input). The translation is validated on every run by evaluating it inside Coq on the cases the implementation ran.',
+    note='Trusted: Coq kernel; the translator gen/ (expression/statement subset, fixed-width wrap, bounds-checked indexing; Go int as unbounded Z); '
+         'clz8 models math/bits.LeadingZeros8; high nibble of the 5th ITF-8 byte treated as insignificant. No axioms (Print Assumptions: closed). '
+         'The stream readers in cram.go are exercised by correspondence only.',
+    technique='Coq proof over source-regenerated Gallina + vm_compute correspondence + spec oracle',
+    design='6/C20')
